@@ -174,11 +174,60 @@ def gen_jobs(ctx, n, tt=False, w=2, s=500, unchecked=False, fuel=400000, prefix=
     return jobs, stats
 
 
+def independent_front_end(ctx, progs, jobs, label='independent-front-end', max_report=2):
+    """The differential runs the reference machine on the typed tree of the *real* front end, so a typechecker change
+    that rewrites an expression (drops a cast, folds wrongly) changes oracle and compiled code alike.  Here the typed
+    tree of the Lean front end (Hid/Typecheck*.lean, the model the C07 theorems are about) is computed for the given
+    programs; where it differs from the real tree the jobs of that program are re-run with the model's tree as the
+    oracle, which exhibits a concrete input if the real front end changed the meaning.
+    progs: {name: source}; jobs: standard job tuples whose source is one of the programs."""
+    import frontend
+    model = frontend.model_run('tc', progs)
+    differing = {}
+    for name, src in progs.items():
+        want, got = frontend.py_frontend(src), model.get(name)
+        if got and got.startswith('ok ') and want.startswith('ok ') and want != got:
+            differing[src] = (name, got[3:])
+    st = ctx.stats.setdefault(label, dict(programs=0, trees_differ=0, reruns=0, disagreements=0))
+    st['programs'] += len(progs); st['trees_differ'] += len(differing)
+    if not differing:
+        ctx.say('%s: %d programs, typed trees identical' % (label, len(progs)))
+        return []
+    name0, tree0 = next(iter(differing.values()))
+    ctx.breaks.append(dict(kind='correspondence', name='tc: typed tree of the real front end vs Hid/Typecheck*.lean on the programs of this check',
+                           detail=repr(dict(program=name0, model_tree=tree0[:600]))[:1500]))
+    sel = [j for j in jobs if j[1] in differing]
+    cases, _ = compile_cases(sel)
+    jm = {j[0]: j for j in sel}
+    for c in cases:
+        c['ast'] = [differing[jm[c['id']][1]][1].encode('ascii')]
+    res = hidlib.run_parallel(cases, chunk=64)
+    bad = []
+    for c in cases:
+        r = res.get(c['id'])
+        if not r or 'vm' not in r or 'src' not in r: continue
+        k = classify(r['vm'], r['src'])
+        if k in ('DIFF', 'HALT', 'FAULT', 'FELLOFF'): bad.append((c['id'], k, r))
+    st['reruns'] += len(cases); st['disagreements'] += len(bad)
+    bad.sort(key=lambda b: len(jm[b[0]][1]))
+    for cid, k, r in bad[:max_report]:
+        _, src, args, w, s_, unchecked, fuel = jm[cid]
+        ctx.violations.append(dict(what='%s: compiled code vs reference semantics on the typed tree of the verified front-end model (%s)' % (label, k),
+                                   kind=k, source=src, args=[a if isinstance(a, str) else a.decode('latin1') for a in args],
+                                   config=dict(w=w, stack=s_, unchecked=unchecked), reference_tree=differing[src][1],
+                                   vm=describe(r['vm']), reference=describe(r['src'])))
+    ctx.say('%s: %d programs, %d typed trees differ from the model, %d re-runs, %d disagreements' % (label, len(progs), len(differing), len(cases), len(bad)))
+    return bad
+
+
 def replay_case(ctx, data):
     """re-run a stored concrete case; prints both behaviours"""
     cfg = data.get('config', {})
     c = dump_ast.case('r', data['source'], data.get('args', []), w=cfg.get('w', 2), s=cfg.get('stack', 500),
                       unchecked=cfg.get('unchecked', False))
+    if data.get('reference_tree'):
+        # the oracle of this case is the typed tree of the verified front-end model, not the real front end's
+        c['ast'] = [data['reference_tree'].encode('ascii')]
     r = hidlib.run_batch([c])['r']
     k = classify(r['vm'], r['src'])
     print('vm       :', r['vm']); print('reference:', r['src']); print('classification:', k)
